@@ -18,3 +18,25 @@ package astnormalization
 //@   safety no-bounds
 //@   loop 0:
 //@     invariant g_looked && !g_provided
+
+// ----------------------------------------------------------------------------------------------
+// C04 (normalize, then validate): a variable is removed from the operation only if it is used nowhere. The collector
+// of used names descends into every element of a list literal and every field of an object literal - a variable used
+// only inside `[$x]` or `{ids: [$x]}` is used.
+//@ func deleteUnusedVariablesVisitor.traverseValue
+//@   requires d != nil && d.operation != nil
+//@   ghost var g_down int = 0
+//@   ghost var g_named bool = false
+//@   at call deleteUnusedVariablesVisitor.traverseValue: ghost g_down = g_down + 1
+//@   at call Document.VariableValueNameString: assert {the.name.of.this.variable.is.recorded} arg1 == value.Ref
+//@   at call Document.VariableValueNameString: ghost g_named = true
+//@   ensures {a.variable.is.recorded.as.used} value.Kind == ast.ValueKindVariable ==> g_named && len(d.variableNamesUsed) == old(len(d.variableNamesUsed)) + 1
+//@   ensures {every.element.of.a.list.literal.is.visited} value.Kind == ast.ValueKindList ==> g_down == old(len(d.operation.ListValues[value.Ref].Refs))
+//@   ensures {every.field.of.an.object.literal.is.visited} value.Kind == ast.ValueKindObject ==> g_down == old(len(d.operation.ObjectValues[value.Ref].Refs))
+//@   ensures {names.are.only.added} len(d.variableNamesUsed) >= old(len(d.variableNamesUsed)) && d.operation == old(d.operation)
+//@   modifies *
+//@   safety no-bounds
+//@   loop 0:
+//@     invariant g_down == phi0 + 1 && len(d.variableNamesUsed) >= old(len(d.variableNamesUsed)) && d.operation == old(d.operation)
+//@   loop 1:
+//@     invariant g_down == phi0 + 1 && len(d.variableNamesUsed) >= old(len(d.variableNamesUsed)) && d.operation == old(d.operation)
